@@ -16,7 +16,7 @@
  *
  * BOUNDED: TMAX = 6 thresholds (|T| <= 6; add: |T| <= 6 before, <= 7 after).  Every loop (library loops over the
  * vector and the spec loops) is unwound with unwinding assertions: `unwind=` on each check. */
-#include <stdlib.h>
+void *_Znwm(unsigned long);
 #include "spec.h"
 i128 g_x, g_y;                      /* ghost concrete points */
 long g_n;
@@ -37,14 +37,14 @@ static void mk_ts(TS *t){
   if (n > TMAX + 1) n = TMAX + 1;
   if (cap < n) cap = n;
   if (cap > TMAX + 2) cap = TMAX + 2;
-  B *st = malloc((TMAX + 2) * sizeof(B));
+  B *st = _Znwm((TMAX + 2) * sizeof(B));      /* operator new, as std::allocator would (models/rt_detalloc.c) */
   T_BEGIN(t) = st; T_END(t) = st + n; T_CAP(t) = st + cap; T_LIMIT(t) = lim;
   for (long i = 0; i < TMAX + 2; i++) if (i < n) wit_e[i] = st[i];
   wit_n = n; wit_cap = cap; wit_lim = lim; }
 
 /* ---------------------------------------------------------------- constructor: establishes the invariant */
 /* BOUNDED: nothing to bound in the input; unwind covers the (at most 3-element) copies of push_back's reallocation */
-//@check id=t_ctor fn=_ZN4crab10thresholdsIN4ikos8z_numberEEC2Em props=C05 unwind=9
+//@check id=t_ctor fn=_ZN4crab10thresholdsIN4ikos8z_numberEEC2Em props=C05 bounded="|T|<=6" unwind=9
 void T_CTOR(TS *self, uint64_t size)
 __CPROVER_requires(FRESH(t_ctor, self, sizeof(TS)))
 __CPROVER_assigns(*self)
@@ -54,7 +54,7 @@ void h_t_ctor(void){ TS t; GHOST(uint64_t, size); T_CTOR(&t, size); REACH; }
 
 /* ---------------------------------------------------------------- size() */
 /* BOUNDED: |T| <= 6 */
-//@check id=t_size fn=_ZNK4crab10thresholdsIN4ikos8z_numberEE4sizeEv props=C05 unwind=9
+//@check id=t_size fn=_ZNK4crab10thresholdsIN4ikos8z_numberEE4sizeEv props=C05 bounded="|T|<=6" unwind=9
 uint32_t T_SIZE(TS *self)
 __CPROVER_requires(FRESH(t_size, self, sizeof(TS)) && t_ok(self))
 __CPROVER_assigns()
@@ -66,7 +66,7 @@ void h_t_size(void){ TS t; mk_ts(&t); T_SIZE(&t); REACH; }
  * afterwards (inserted, or it replaced its neighbour v-1 / v+1: "don't add consecutive thresholds"); at the
  * capacity limit nothing changes.
  * BOUNDED: |T| <= 6 before the call (<= 7 after). */
-//@check id=t_add fn=_ZN4crab10thresholdsIN4ikos8z_numberEE3addIS2_EEvRKNS1_5boundIT_EE props=C05 unwind=9 timeout=600 first_timeout=300 cost=5
+//@check id=t_add fn=_ZN4crab10thresholdsIN4ikos8z_numberEE3addIS2_EEvRKNS1_5boundIT_EE props=C05 bounded="|T|<=6" unwind=9 timeout=600 first_timeout=300 cost=5
 void T_ADD(TS *self, B *v)
 __CPROVER_requires(FRESH(t_add, self, sizeof(TS)) && FRESH(t_add, v, sizeof(B)) && t_ok(self) && b_ok(*v) && g_n == t_n(self))   /* g_n: ghost, the number of thresholds on entry */
 __CPROVER_assigns(*self, __CPROVER_object_whole(T_BEGIN(self)))
@@ -80,14 +80,14 @@ void h_t_add(void){ TS t; mk_ts(&t); IN(B, v); GHOSTG(long, g_n); T_ADD(&t, &v);
 
 /* ---------------------------------------------------------------- get_next / get_prev */
 /* BOUNDED: |T| <= 6 */
-//@check id=t_next fn=_ZNK4crab10thresholdsIN4ikos8z_numberEE8get_nextIS2_EENS1_5boundIT_EERKS7_ props=C05 unwind=9
+//@check id=t_next fn=_ZNK4crab10thresholdsIN4ikos8z_numberEE8get_nextIS2_EENS1_5boundIT_EERKS7_ props=C05 bounded="|T|<=6" unwind=9
 void T_NEXT(B *ret, TS *self, B *v)
 __CPROVER_requires(FRESH(t_next, ret, sizeof(B)) && FRESH(t_next, self, sizeof(TS)) && FRESH(t_next, v, sizeof(B)) && t_ok(self) && b_ok(*v))
 __CPROVER_assigns(*ret)
 __CPROVER_ensures(POST_get_next(self, *v, *ret));
 void h_t_next(void){ TS t; mk_ts(&t); IN(B, v); B r; T_NEXT(&r, &t, &v); REACH; }
 /* BOUNDED: |T| <= 6 */
-//@check id=t_prev fn=_ZNK4crab10thresholdsIN4ikos8z_numberEE8get_prevIS2_EENS1_5boundIT_EERKS7_ props=C05 unwind=9
+//@check id=t_prev fn=_ZNK4crab10thresholdsIN4ikos8z_numberEE8get_prevIS2_EENS1_5boundIT_EERKS7_ props=C05 bounded="|T|<=6" unwind=9
 void T_PREV(B *ret, TS *self, B *v)
 __CPROVER_requires(FRESH(t_prev, ret, sizeof(B)) && FRESH(t_prev, self, sizeof(TS)) && FRESH(t_prev, v, sizeof(B)) && t_ok(self) && b_ok(*v))
 __CPROVER_assigns(*ret)
@@ -99,7 +99,7 @@ void h_t_prev(void){ TS t; mk_ts(&t); IN(B, v); B r; T_PREV(&r, &t, &v); REACH; 
  * stationary when x <= self, otherwise the rank (thresholds strictly beyond the bounds) strictly decreases.
  * get_next / get_prev are replaced by their contracts above (proved in t_next / t_prev).
  * BOUNDED: |T| <= 6 (through the spec loops and the bounded proofs of get_next / get_prev). */
-//@check id=i_widen_ts fn=_ZNK4ikos8intervalINS_8z_numberEE19widening_thresholdsIN4crab10thresholdsIS1_EEEES2_RKS2_RKT_ props=C05 unwind=9 replace=_ZNK4crab10thresholdsIN4ikos8z_numberEE8get_nextIS2_EENS1_5boundIT_EERKS7_,_ZNK4crab10thresholdsIN4ikos8z_numberEE8get_prevIS2_EENS1_5boundIT_EERKS7_
+//@check id=i_widen_ts fn=_ZNK4ikos8intervalINS_8z_numberEE19widening_thresholdsIN4crab10thresholdsIS1_EEEES2_RKS2_RKT_ props=C05 bounded="|T|<=6" unwind=9 replace=_ZNK4crab10thresholdsIN4ikos8z_numberEE8get_nextIS2_EENS1_5boundIT_EERKS7_,_ZNK4crab10thresholdsIN4ikos8z_numberEE8get_prevIS2_EENS1_5boundIT_EERKS7_
 void I_WT(I *ret, I *self, I *x, TS *ts)
 __CPROVER_requires(FRESH(i_widen_ts, ret, sizeof(I)) && FRESH(i_widen_ts, self, sizeof(I)) && FRESH(i_widen_ts, x, sizeof(I)) && FRESH(i_widen_ts, ts, sizeof(TS)))
 __CPROVER_requires(i_ok(*self) && i_ok(*x) && t_ok(ts) && TOP(i_widen_ts, GRANGE))
@@ -112,4 +112,4 @@ __CPROVER_ensures(POST_wt_stationary(*self, *x, *ret))
 __CPROVER_ensures(POST_wt_rank(*self, *x, ts, *ret));
 void h_i_widen_ts(void){ TS t; mk_ts(&t); IN(I, a); IN(I, b); HGHOSTS; I r; I_WT(&r, &a, &b, &t); REACH; }
 /* the same contract with the real get_next / get_prev (std::upper_bound / lower_bound) in line */
-//@check id=i_widen_ts_inline fn=_ZNK4ikos8intervalINS_8z_numberEE19widening_thresholdsIN4crab10thresholdsIS1_EEEES2_RKS2_RKT_ tag=i_widen_ts harness=h_i_widen_ts props=C05 unwind=9 timeout=600 first_timeout=300 cost=4
+//@check id=i_widen_ts_inline fn=_ZNK4ikos8intervalINS_8z_numberEE19widening_thresholdsIN4crab10thresholdsIS1_EEEES2_RKS2_RKT_ tag=i_widen_ts harness=h_i_widen_ts props=C05 bounded="|T|<=6" unwind=9 timeout=600 first_timeout=300 cost=4
